@@ -43,13 +43,6 @@ def snapshot(net):
     for tab, cols in FLOWS:
         if len(net[tab]):
             out[tab] = net["res_" + tab][cols].values.astype(float).copy()
-    # voltage magnitudes at branch terminals (they also show the auxiliary buses behind open branch switches)
-    vt = [vm]
-    for tab in ("line", "trafo", "trafo3w"):
-        if len(net[tab]):
-            r = net["res_" + tab]
-            vt += [r[c].values.astype(float) for c in r.columns if c.startswith("vm_") and c.endswith("_pu")]
-    out["VM_terminals"] = np.concatenate(vt)
     return out
 
 
@@ -82,17 +75,6 @@ def compare(ref, alt, family):
             i = np.unravel_index((d - tol).argmax(), d.shape)
             bad.append(("res_%s.%s" % (tab, cols[i[1]]), float(d[i]), float(tol[i]), int(i[0])))
     return bad
-
-
-def low_voltage_solution(ref, alt):
-    """the alternative converged to ANOTHER valid solution of the power flow equations (the non-physical
-    low-voltage branch): some bus or branch terminal (incl. auxiliary buses behind open switches) below 0.5 p.u.
-    that is above 0.8 p.u. in the reference."""
-    a, b = ref["VM_terminals"], alt["VM_terminals"]
-    if a.shape != b.shape:
-        return False
-    m = ~(np.isnan(a) | np.isnan(b))
-    return bool(((b[m] < 0.5) & (a[m] > 0.8)).any())
 
 
 def other_valid_root(ref_net, alt_net, tol=1e-6):
